@@ -258,7 +258,7 @@ fn word_cases(t: &Truth, f: &mut dyn FnMut(Case)) {
 
 /// Constructor cases: v0 carries a constructor over components, v3 = v0 carries the same constructor over other
 /// component variables; component evidence must be joined through the induced equalities.
-fn constructor_cases(slice: usize, f: &mut dyn FnMut(Case)) {
+fn constructor_cases(slice: usize, thorough: bool, f: &mut dyn FnMut(Case)) {
     let ts = truths();
     let comps: Vec<&Truth> = vec![&ts[2], &ts[4], &ts[5]]; // uint256, address, bool
     for (ci, ctor) in ["mapping", "dyn_array", "fixed_array"].into_iter().enumerate() {
@@ -277,7 +277,23 @@ fn constructor_cases(slice: usize, f: &mut dyn FnMut(Case)) {
                             "dyn_array" => J::DynArray(b),
                             _ => J::FixedArray(b, 2),
                         };
+                        // `Any` ("nothing known") is the weakest evidence about the constructed value itself: on either
+                        // side, and on a further variable v6 that is only declared equal
+                        for top in 0..8usize {
+                        if top != 0 && !thorough && (ek.len() > 1 || ev.len() > 1) {
+                            continue;
+                        }
                         let mut set = vec![(0usize, mk(1, 2)), (3, J::Equal(0)), (3, mk(4, 5))];
+                        if top & 1 != 0 {
+                            set.insert(0, (0, J::Any));
+                        }
+                        if top & 2 != 0 {
+                            set.push((3, J::Any));
+                        }
+                        if top & 4 != 0 {
+                            set.push((6, J::Equal(3)));
+                            set.push((6, J::Any));
+                        }
                         let mut key_all = Vec::new();
                         if ctor == "mapping" {
                             for (i, j) in ek.iter().enumerate() {
@@ -303,12 +319,17 @@ fn constructor_cases(slice: usize, f: &mut dyn FnMut(Case)) {
                             expect.push((2, Some((w, usage_index(u)))));
                             expect.push((5, Some((w, usage_index(u)))));
                         }
+                        let mut shape = vec![(0, ctor), (3, ctor)];
+                        if top & 4 != 0 {
+                            same.push((3, 6));
+                            shape.push((6, ctor));
+                        }
                         f(Case {
                             set: set.clone(),
-                            n: 6,
+                            n: 7,
                             expect,
                             same: same.clone(),
-                            shape: vec![(0, ctor), (3, ctor)],
+                            shape,
                             label: format!("compatible:{ctor}"),
                         });
                         // contradiction: a different constructor or a sized word against the constructor
@@ -322,12 +343,13 @@ fn constructor_cases(slice: usize, f: &mut dyn FnMut(Case)) {
                             s2.push((0, cj));
                             f(Case {
                                 set: s2,
-                                n: 6,
+                                n: 7,
                                 expect: vec![(0, None), (3, None)],
                                 same: vec![(0, 3)],
                                 shape: vec![],
                                 label: format!("contradiction:{why}"),
                             });
+                        }
                         }
                     }
                 }
@@ -338,12 +360,12 @@ fn constructor_cases(slice: usize, f: &mut dyn FnMut(Case)) {
 
 pub struct C15;
 
-fn cases_of_chunk(chunk: usize, f: &mut dyn FnMut(Case)) {
+fn cases_of_chunk(chunk: usize, thorough: bool, f: &mut dyn FnMut(Case)) {
     let ts = truths();
     if chunk < ts.len() {
         word_cases(&ts[chunk], f);
     } else {
-        constructor_cases(chunk - ts.len(), f);
+        constructor_cases(chunk - ts.len(), thorough, f);
     }
 }
 
@@ -358,7 +380,7 @@ impl Check for C15 {
         truths().len() + 9
     }
     fn run_chunk(&self, tier: Tier, chunk: usize, ctx: &mut Ctx) {
-        cases_of_chunk(chunk, &mut |c: Case| {
+        cases_of_chunk(chunk, tier.thorough(), &mut |c: Case| {
             ctx.case(|| json!({"judgements": set_json(&c.set), "n": c.n, "plan": [], "label": c.label}));
             ctx.count("judgement_sets", 1);
             ctx.count(if c.label.starts_with("compatible") { "compatible_sets" } else { "contradictory_sets" }, 1);
@@ -402,7 +424,8 @@ impl Check for C15 {
              array / fixed array over component variables of type uint256, address, bool. Evidence = every subset of <= 3 weakenings \
              of the truth on one variable plus every subset of <= 2 on a second variable declared equal (width known or not, usage \
              anywhere below the true one on its chain: Bytes < Numeric < Unsigned | Signed, Bytes < Numeric < Unsigned < Address, Bytes < Address | Bool | Selector | \
-             Function), constructors stated twice through an equality with the component evidence split between the two sides. \
+             Function), constructors stated twice through an equality with the component evidence split between the two sides, crossed with \
+             `Any` on either side and on a third variable that is only declared equal (quick tier: for component evidence of at most one judgement per component). \
              Expected: the join computed on the chains (not with the tool's merge table), never a conflict, constructors kept with \
              unified components. Then the same sets with exactly one plainly contradictory judgement (different width, signed vs \
              unsigned / address, bool vs numeric, mapping vs array, mapping vs sized word, fixed arrays of different length): the class \
